@@ -3,36 +3,62 @@ C05, part `Cli` — the fixed point at the level of the command line: one grcov 
 with lcov output is the function `Cli.run cfg branch fs : List Bytes → Res Bytes` (GrcovModel/
 Cli.lean: parse every input, `add_results` under canonicalised keys, `rewrite_paths`, `output_lcov`),
 tied to the real binary by the correspondence runs of C05 (CLI chains) and C06 (shard trees).
+The run of the theorems is `Cli.runJ`: `rewrite_paths` WITH the Java/Kotlin partial-path lookup
+(second review, item 26; `ord` = the directory-walk order, a parameter), which is what the driver
+op `cli.runj` computes and the real binary is compared with.
 Feeding the report a run wrote back into a run with the same options reproduces it BYTE FOR BYTE –
-in the model, where the two hash maps (result map, function table) iterate in insertion order; the
-real order is a parameter, so the transferred statement is "as a multiset of sections, function
-records of a file as a set" – under the union of the guards of the pieces:
+in the model, where the result map (a hash map) iterates in insertion order; the real order is a
+parameter, so the transferred statement is "as a multiset of sections" (the functions of a file
+are listed in name order since fix 73c9152: `Cli.sortFns`, nothing is left open there) – under
+the union of the guards of the pieces:
 * the report is writable and re-readable: paths and function names without line terminators and
   well-formed UTF-8, numbers within u32/u64 (`ReportOK`, C05);
 * no two reported files are filed under the same key by the next run (the C12 duplicates guard);
 * the rewrite guards of Props/C05Rewrite.lean (no path mapping; either no path option at all, or a
   clean absolute source dir with the prefix dir absent or equal to it – what `main` sets without
   `-p` – and every reported file existing below the source dir).
-The full statement is false: the three rewrite counter-examples of C05Rewrite and the C12
-duplicates are lifted to closed byte-level witnesses of `Cli.run`.
+With `--branch` off the same holds (`C05_cli_fixed_point_partial_off`, `…_plain_partial_off`).
+The full statement is false: the three rewrite counter-examples of C05Rewrite, the C12
+duplicates, and a fourth non-idempotence that exists at CLI level only (`-s S -p S/src` with the
+file on disk: `add_results` canonicalises the re-imported path, THEN the prefix below the source
+dir is stripped from it; finding C05-abs-prefix-below-source-restripped) are closed byte-level
+witnesses of `Cli.runJ`.
 Helper lemmas: GrcovModel/Lemmas/Cli.lean.
 -/
 import GrcovModel.Lemmas.Cli
 namespace Grcov.Props.C05
-open Grcov AList Grcov.Lcov Grcov.Rewrite Grcov.UPath Grcov.Cli
+open Grcov AList Grcov.Lcov Grcov.Rewrite Grcov.UPath Grcov.Cli Grcov.Glob
 
 namespace CliAux
 
-/-- **The second run.** If the report of a run is writable, its files are filed under distinct keys
-by the next run, and every reported path – as the key `add_results` makes of it – is rewritten to
-itself, then a run on the written report writes the same bytes. -/
-theorem second_run (cfg : Cfg) (fs : FS) (inputs : List Lcov.Bytes) (rep : List Rewrite.Rec)
-    (h : report cfg true fs inputs = .ok rep) (hw : ReportOK (printable rep))
+/-- what a run with the branch flag `branch` reads from the report `printReport rep` -/
+theorem parseInput_printReport_any (branch : Bool) (rep : List Rewrite.Rec) (hw : ReportOK (printable rep))
+    (hb : branch = false → ∀ r ∈ rep, r.cov.branches = []) :
+    parseInput branch (printReport rep) = rep.map fun r => (r.rel, norm r.cov) := by
+  cases branch with
+  | true => exact parseInput_printReport rep hw
+  | false => exact parseInput_off_printReport rep hw (hb rfl)
+
+/-- the result map of a run on a report: every record under the key `add_results` makes of its path -/
+theorem resultMap_printReport (cfg : Cfg) (branch : Bool) (fs : FS) (rep : List Rewrite.Rec)
+    (hw : ReportOK (printable rep)) (hb : branch = false → ∀ r ∈ rep, r.cov.branches = [])
+    (hd : ((rep.map (·.rel)).map (addCanon fs cfg.sourceDir)).Nodup) :
+    resultMap cfg branch fs [printReport rep]
+      = rep.map fun r => (addCanon fs cfg.sourceDir r.rel, norm r.cov) := by
+  simp only [resultMap, List.foldl_cons, List.foldl_nil, parseInput_printReport_any branch rep hw hb]
+  rw [addResults_distinct _ [] _ (by rw [List.map_map, List.map_map] at *; exact hd) (by simp [keys])]
+  simp [List.map_map, Function.comp]
+
+/-- **The second run.** If a report is writable, its files are filed under distinct keys by the
+next run, and every reported path – as the key `add_results` makes of it – is rewritten to itself,
+then a run on the written report writes the same bytes. -/
+theorem second_run (cfg : Cfg) (branch : Bool) (fs : FS) (rep : List Rewrite.Rec)
+    (habs : ∀ s, cfg.sourceDir = some s → isAbsolute s = true) (hw : ReportOK (printable rep))
+    (hb : branch = false → ∀ r ∈ rep, r.cov.branches = [])
     (hd : ((rep.map (·.rel)).map (addCanon fs cfg.sourceDir)).Nodup)
     (hrw : ∀ r ∈ rep, ∃ a, rewriteKey cfg fs (addCanon fs cfg.sourceDir r.rel, norm r.cov)
         = .ok (some ⟨a, r.rel, norm r.cov⟩)) :
-    run cfg true fs [printReport rep] = .ok (printReport rep) := by
-  obtain ⟨habs, _, _⟩ := (rewritePaths_eq_ok cfg fs _ rep).1 h
+    run cfg branch fs [printReport rep] = .ok (printReport rep) := by
   let key : Rewrite.Rec → Lcov.Bytes × Cov := fun r => (addCanon fs cfg.sourceDir r.rel, norm r.cov)
   let g : Rewrite.Rec → Rewrite.Rec := fun r => (okPart (rewriteKey cfg fs (key r))).getD r
   have hg : ∀ r ∈ rep, rewriteKey cfg fs (key r) = .ok (some (g r)) ∧
@@ -41,11 +67,9 @@ theorem second_run (cfg : Cfg) (fs : FS) (inputs : List Lcov.Bytes) (rep : List 
     obtain ⟨a, ha⟩ := hrw r hr
     have e : g r = ⟨a, r.rel, norm r.cov⟩ := by simp [g, key, ha, okPart]
     exact ⟨by rw [e]; exact ha, by rw [e]⟩
-  have hmap : resultMap cfg true fs [printReport rep] = rep.map key := by
-    simp only [resultMap, List.foldl_cons, List.foldl_nil, parseInput_printReport rep hw]
-    rw [addResults_distinct _ [] _ (by rw [List.map_map, List.map_map] at *; exact hd) (by simp [keys])]
-    simp [key, List.map_map, Function.comp]
-  have hrep : report cfg true fs [printReport rep] = .ok (rep.map g) := by
+  have hmap : resultMap cfg branch fs [printReport rep] = rep.map key :=
+    resultMap_printReport cfg branch fs rep hw hb hd
+  have hrep : report cfg branch fs [printReport rep] = .ok (rep.map g) := by
     unfold report
     rw [hmap]
     exact rewritePaths_map_ok cfg fs rep key g habs fun r hr => (hg r hr).1
@@ -56,61 +80,83 @@ theorem second_run (cfg : Cfg) (fs : FS) (inputs : List Lcov.Bytes) (rep : List 
     List.map_congr_left fun r hr => (hg r hr).2
   rw [e, printReport_norm rep (fun r => (g r).abs) hw]
 
-theorem rerun_fixed (cfg : Cfg) (branch : Bool) (fs : FS) (B : Lcov.Bytes)
-    (h : run cfg branch fs [B] = .ok B) (k : Nat) : rerun cfg branch fs k B = .ok B := by
+/-- … and so does the run with the Java/Kotlin lookup when the lookup is not needed for the keys
+of the second run -/
+theorem second_runJ (cfg : Cfg) (branch : Bool) (fs : FS) (ord : List (List Lcov.Bytes))
+    (rep : List Rewrite.Rec)
+    (habs : ∀ s, cfg.sourceDir = some s → isAbsolute s = true) (hw : ReportOK (printable rep))
+    (hb : branch = false → ∀ r ∈ rep, r.cov.branches = [])
+    (hd : ((rep.map (·.rel)).map (addCanon fs cfg.sourceDir)).Nodup)
+    (hrw : ∀ r ∈ rep, ∃ a, rewriteKey cfg fs (addCanon fs cfg.sourceDir r.rel, norm r.cov)
+        = .ok (some ⟨a, r.rel, norm r.cov⟩))
+    (hnd : needed cfg fs (rep.map fun r => addCanon fs cfg.sourceDir r.rel) = false) :
+    runJ cfg branch fs ord [printReport rep] = .ok (printReport rep) := by
+  rw [runJ_eq_run]
+  · exact second_run cfg branch fs rep habs hw hb hd hrw
+  · rw [resultMap_printReport cfg branch fs rep hw hb hd, List.map_map]
+    exact hnd
+
+theorem rerun_fixed (cfg : Cfg) (branch : Bool) (fs : FS) (ord : List (List Lcov.Bytes)) (B : Lcov.Bytes)
+    (h : runJ cfg branch fs ord [B] = .ok B) (k : Nat) : rerunJ cfg branch fs ord k B = .ok B := by
   induction k with
   | zero => rfl
-  | succ k ih => simp only [rerun, h, ih]
+  | succ k ih => simp only [rerunJ, h, ih]
 
-end CliAux
+/-- the selection facts of a record of a report of `reportJ` -/
+theorem selected_of_mem {cfg : Cfg} {branch : Bool} {fs : FS} {ord : List (List Lcov.Bytes)}
+    {inputs : List Lcov.Bytes} {rep : List Rewrite.Rec} (h : reportJ cfg branch fs ord inputs = .ok rep)
+    {r : Rewrite.Rec} (hr : r ∈ rep) :
+    setMatch cfg.ignore r.rel = false ∧ (cfg.keep = [] ∨ setMatch cfg.keep r.rel = true) ∧
+      (cfg.ignoreNotExisting = true → fs.exists r.abs = true) ∧ filterOk cfg.filter r.cov = true ∧
+      ∃ r0, finalRel r0 = some r.rel := by
+  obtain ⟨kc, _, hk⟩ := (mem_rewritePathsJ h r).1 hr
+  obtain ⟨a, rl, hres, hsel⟩ := (rewriteKeyJ_some_iff _ _ _ _ _ _).1 hk
+  obtain ⟨h1, h2, h3, h4, e⟩ := (selectRec_some_iff _ _ _ _ _ _).1 hsel
+  obtain ⟨r0, _, hf⟩ := resolveKeyJ_some hres
+  subst e
+  exact ⟨h1, h2, h3, h4, r0, hf⟩
 
-/-- the full statement: whatever the options (path mapping aside), file system and inputs, a run on
-the report of a run writes the same report. FALSE of the code. -/
-def C05_cli_fixed_point_stmt : Prop :=
-  ∀ (cfg : Cfg) (fs : FS) (inputs : List Lcov.Bytes) (B : Lcov.Bytes),
-    cfg.mapping = none → run cfg true fs inputs = .ok B → run cfg true fs [B] = .ok B
+/-- the report of a run without `--branch` carries no branch data -/
+theorem reportJ_off_no_branches {cfg : Cfg} {fs : FS} {ord : List (List Lcov.Bytes)}
+    {inputs : List Lcov.Bytes} {rep : List Rewrite.Rec} (h : reportJ cfg false fs ord inputs = .ok rep) :
+    ∀ r ∈ rep, r.cov.branches = [] := by
+  intro r hr
+  obtain ⟨kc, hkc, hk⟩ := (mem_rewritePathsJ h r).1 hr
+  obtain ⟨a, rl, _, hsel⟩ := (rewriteKeyJ_some_iff _ _ _ _ _ _).1 hk
+  obtain ⟨_, _, _, _, e⟩ := (selectRec_some_iff _ _ _ _ _ _).1 hsel
+  subst e
+  exact resultMap_off_no_branches cfg fs inputs kc hkc
 
-/-- Iterating: once a report is reproduced by a run, any number of further runs reproduces it. -/
-theorem C05_cli_iterate (cfg : Cfg) (branch : Bool) (fs : FS) (B : Lcov.Bytes)
-    (h : run cfg branch fs [B] = .ok B) (k : Nat) : rerun cfg branch fs k B = .ok B :=
-  CliAux.rerun_fixed cfg branch fs B h k
-
-/-- **CLI fixed point with `-s`.** Source dir `S` clean, absolute and backslash-free; no path
-mapping; prefix dir absent or `S` (what `main` sets when `-p` is not given); any `--ignore`,
-`--keep-only`, `--filter`, `--ignore-not-existing`; `--branch` on. If the report of the run is
-writable (`ReportOK`: names without line terminators and well-formed UTF-8, numbers in range), every
-reported file is an existing regular file below `S` reported relative to `S`, and no file is
-reported twice, then the run writes a report `B` which a run on `[B]` reproduces byte for byte, and
-so does every further run. -/
-theorem C05_cli_fixed_point_partial (cfg : Cfg) (fs : FS) (sn : List Lcov.Bytes)
-    (inputs : List Lcov.Bytes) (rep : List Rewrite.Rec)
+/-- the fixed point with `-s`, for either value of the branch flag -/
+theorem fixed_point_source (cfg : Cfg) (branch : Bool) (fs : FS) (ord : List (List Lcov.Bytes))
+    (sn : List Lcov.Bytes) (inputs : List Lcov.Bytes) (rep : List Rewrite.Rec)
     (hS : cfg.sourceDir = some (render ⟨true, sn⟩)) (hM : cfg.mapping = none)
     (hP : cfg.prefixDir = none ∨ cfg.prefixDir = some (render ⟨true, sn⟩))
     (hsn : ∀ n ∈ sn, RealName n ∧ 92 ∉ n)
-    (h : report cfg true fs inputs = .ok rep) (hw : ReportOK (printable rep))
+    (h : reportJ cfg branch fs ord inputs = .ok rep) (hw : ReportOK (printable rep))
+    (hb : branch = false → ∀ r ∈ rep, r.cov.branches = [])
     (hnd : (rep.map (·.abs)).Nodup)
     (hfiles : ∀ r ∈ rep, ∃ names, names ≠ [] ∧ (∀ n ∈ names, RealName n ∧ 92 ∉ n) ∧
       r.abs = render ⟨true, sn ++ names⟩ ∧ r.rel = join names ∧
       fs.resolve (render ⟨true, sn ++ names⟩) = some (sn ++ names, .file)) :
-    run cfg true fs inputs = .ok (printReport rep)
-    ∧ run cfg true fs [printReport rep] = .ok (printReport rep)
-    ∧ ∀ k, rerun cfg true fs k (printReport rep) = .ok (printReport rep) := by
+    runJ cfg branch fs ord inputs = .ok (printReport rep)
+    ∧ runJ cfg branch fs ord [printReport rep] = .ok (printReport rep)
+    ∧ ∀ k, rerunJ cfg branch fs ord k (printReport rep) = .ok (printReport rep) := by
   have hsn1 : ∀ n ∈ sn, RealName n := fun n hn => (hsn n hn).1
+  obtain ⟨habs, _, _, _⟩ := (rewritePathsJ_eq_ok cfg fs ord _ rep).1 h
   have hcanon : ∀ r ∈ rep, addCanon fs cfg.sourceDir r.rel = r.abs := by
     intro r hr
     obtain ⟨names, hne, hn, ea, er, hres⟩ := hfiles r hr
     rw [hS, er, ea]
     exact addCanon_under_source hsn1 (fun n h => (hn n h).1) hne hres
-  have h2 : run cfg true fs [printReport rep] = .ok (printReport rep) := by
-    apply CliAux.second_run cfg fs inputs rep h hw
-    · have : (rep.map (·.rel)).map (addCanon fs cfg.sourceDir) = rep.map (·.abs) := by
-        rw [List.map_map]; exact List.map_congr_left fun r hr => hcanon r hr
-      rw [this]; exact hnd
+  have hkeys : (rep.map fun r => addCanon fs cfg.sourceDir r.rel) = rep.map (·.abs) :=
+    List.map_congr_left fun r hr => hcanon r hr
+  have h2 : runJ cfg branch fs ord [printReport rep] = .ok (printReport rep) := by
+    apply second_runJ cfg branch fs ord rep habs hw hb
+    · rw [List.map_map]; exact hkeys ▸ hnd
     · intro r hr
       obtain ⟨names, hne, hn, ea, er, hres⟩ := hfiles r hr
-      obtain ⟨kc, _, hk⟩ := (mem_rewritePaths h r).1 hr
-      obtain ⟨a, rl, _, hsel⟩ := (rewriteKey_some_iff _ _ _ _).1 hk
-      obtain ⟨h1, h2, h3, h4, e⟩ := (selectRec_some_iff _ _ _ _ _ _).1 hsel
+      obtain ⟨h1, h2, h3, h4, _⟩ := selected_of_mem h hr
       refine ⟨r.abs, ?_⟩
       rw [hcanon r hr, rewriteKey_some_iff]
       refine ⟨r.abs, r.rel, ?_, ?_⟩
@@ -118,43 +164,145 @@ theorem C05_cli_fixed_point_partial (cfg : Cfg) (fs : FS) (sn : List Lcov.Bytes)
         rw [ea, er]
         exact resolveKey_canonical_under_source hS hM hP hsn hn hne hres
       · rw [selectRec_some_iff]
-        subst e
         exact ⟨h1, h2, h3, by rw [filterOk_norm]; exact h4, rfl⟩
-  refine ⟨by simp only [Cli.run, h], h2, CliAux.rerun_fixed cfg true fs _ h2⟩
+    · rw [hkeys]
+      apply needed_of_all_exist hS
+      intro k hk
+      simp only [List.mem_map] at hk
+      obtain ⟨r, hr, rfl⟩ := hk
+      obtain ⟨names, hne, hn, ea, _, hres⟩ := hfiles r hr
+      rw [ea]
+      exact exists_canonical_under_source hP hsn1 (fun n h => (hn n h).1) hne hres
+  refine ⟨by simp only [Cli.runJ, h], h2, rerun_fixed cfg branch fs ord _ h2⟩
+
+/-- the fixed point without path options, for either value of the branch flag -/
+theorem fixed_point_plain (cfg : Cfg) (branch : Bool) (fs : FS) (ord : List (List Lcov.Bytes))
+    (inputs : List Lcov.Bytes) (rep : List Rewrite.Rec) (hS : cfg.sourceDir = none)
+    (hP : cfg.prefixDir = none) (hM : cfg.mapping = none) (hE : cfg.ignoreNotExisting = false)
+    (hcwd : ∀ n ∈ fs.cwd, RealName n)
+    (h : reportJ cfg branch fs ord inputs = .ok rep) (hw : ReportOK (printable rep))
+    (hb : branch = false → ∀ r ∈ rep, r.cov.branches = [])
+    (hnd : (rep.map (·.rel)).Nodup) :
+    runJ cfg branch fs ord inputs = .ok (printReport rep)
+    ∧ runJ cfg branch fs ord [printReport rep] = .ok (printReport rep)
+    ∧ ∀ k, rerunJ cfg branch fs ord k (printReport rep) = .ok (printReport rep) := by
+  have hcanon : ∀ k, addCanon fs cfg.sourceDir k = k := by intro k; rw [hS]; rfl
+  have h2 : runJ cfg branch fs ord [printReport rep] = .ok (printReport rep) := by
+    apply second_runJ cfg branch fs ord rep (by simp [hS]) hw hb
+    · have : (rep.map (·.rel)).map (addCanon fs cfg.sourceDir) = rep.map (·.rel) := by
+        rw [List.map_congr_left (g := id) fun k _ => hcanon k]; simp
+      rw [this]; exact hnd
+    · intro r hr
+      obtain ⟨h1, h2, _, h4, r0, hf⟩ := selected_of_mem h hr
+      obtain ⟨⟨np, enp, hreal⟩, hnb⟩ := finalRel_shape hf
+      obtain ⟨a', ha'⟩ := resolveKey_plain_normal (fs := fs) hS hP hM hcwd hreal (enp ▸ hnb)
+      refine ⟨a', ?_⟩
+      rw [hcanon, rewriteKey_some_iff]
+      refine ⟨a', r.rel, by rw [enp]; exact ha', ?_⟩
+      rw [selectRec_some_iff]
+      exact ⟨h1, h2, by simp [hE], by rw [filterOk_norm]; exact h4, rfl⟩
+    · exact needed_of_no_source hS fs _
+  refine ⟨by simp only [Cli.runJ, h], h2, rerun_fixed cfg branch fs ord _ h2⟩
+
+end CliAux
+
+/-- the full statement: whatever the options (path mapping aside), file system, walk order and
+inputs, a run on the report of a run writes the same report. FALSE of the code. -/
+def C05_cli_fixed_point_stmt : Prop :=
+  ∀ (cfg : Cfg) (fs : FS) (ord : List (List Lcov.Bytes)) (inputs : List Lcov.Bytes) (B : Lcov.Bytes),
+    cfg.mapping = none → runJ cfg true fs ord inputs = .ok B → runJ cfg true fs ord [B] = .ok B
+
+/-- Iterating: once a report is reproduced by a run, any number of further runs reproduces it. -/
+theorem C05_cli_iterate (cfg : Cfg) (branch : Bool) (fs : FS) (ord : List (List Lcov.Bytes))
+    (B : Lcov.Bytes) (h : runJ cfg branch fs ord [B] = .ok B) (k : Nat) :
+    rerunJ cfg branch fs ord k B = .ok B :=
+  CliAux.rerun_fixed cfg branch fs ord B h k
+
+/-- The run of these theorems is the run without the Java/Kotlin lookup (`Cli.run`, the model that
+`C02_run_extends_cli_run` embeds into the whole-run model) whenever the lookup is not needed: no
+source dir, or no `.java` / `.kt` key, or every key existing below the source dir as spelled. -/
+theorem C05_cli_runJ_is_run (cfg : Cfg) (branch : Bool) (fs : FS) (ord : List (List Lcov.Bytes))
+    (inputs : List Lcov.Bytes)
+    (h : cfg.sourceDir = none ∨
+      (∀ k ∈ (resultMap cfg branch fs inputs).map (·.1), isPartialExt k = false) ∨
+      (∃ s, cfg.sourceDir = some s ∧ ∀ k ∈ (resultMap cfg branch fs inputs).map (·.1),
+        fs.exists (push s (removePrefix cfg.prefixDir k)) = true)) :
+    runJ cfg branch fs ord inputs = run cfg branch fs inputs := by
+  apply runJ_eq_run
+  rcases h with h | h | ⟨s, hs, h⟩
+  · exact needed_of_no_source h fs _
+  · exact needed_of_no_java fs h
+  · exact needed_of_all_exist hs h
+
+/-- **CLI fixed point with `-s`.** Source dir `S` clean, absolute and backslash-free; no path
+mapping; prefix dir absent or `S` (what `main` sets when `-p` is not given); any `--ignore`,
+`--keep-only`, `--filter`, `--ignore-not-existing`; `--branch` on; Java/Kotlin keys and their
+partial-path lookup included (any walk order). If the report of the run is writable (`ReportOK`:
+names without line terminators and well-formed UTF-8, numbers in range), every reported file is an
+existing regular file below `S` reported relative to `S`, and no file is reported twice, then the
+run writes a report `B` which a run on `[B]` reproduces byte for byte, and so does every further
+run. -/
+theorem C05_cli_fixed_point_partial (cfg : Cfg) (fs : FS) (ord : List (List Lcov.Bytes))
+    (sn : List Lcov.Bytes) (inputs : List Lcov.Bytes) (rep : List Rewrite.Rec)
+    (hS : cfg.sourceDir = some (render ⟨true, sn⟩)) (hM : cfg.mapping = none)
+    (hP : cfg.prefixDir = none ∨ cfg.prefixDir = some (render ⟨true, sn⟩))
+    (hsn : ∀ n ∈ sn, RealName n ∧ 92 ∉ n)
+    (h : reportJ cfg true fs ord inputs = .ok rep) (hw : ReportOK (printable rep))
+    (hnd : (rep.map (·.abs)).Nodup)
+    (hfiles : ∀ r ∈ rep, ∃ names, names ≠ [] ∧ (∀ n ∈ names, RealName n ∧ 92 ∉ n) ∧
+      r.abs = render ⟨true, sn ++ names⟩ ∧ r.rel = join names ∧
+      fs.resolve (render ⟨true, sn ++ names⟩) = some (sn ++ names, .file)) :
+    runJ cfg true fs ord inputs = .ok (printReport rep)
+    ∧ runJ cfg true fs ord [printReport rep] = .ok (printReport rep)
+    ∧ ∀ k, rerunJ cfg true fs ord k (printReport rep) = .ok (printReport rep) :=
+  CliAux.fixed_point_source cfg true fs ord sn inputs rep hS hM hP hsn h hw (by simp) hnd hfiles
+
+/-- **… with `--branch` off** (second review, item 25): the same guards, the runs made WITHOUT
+`--branch` (the reader skips BRDA records; lcov inputs, so no branch data is filed at all): the
+report is reproduced byte for byte by a run on it, and by every further run. -/
+theorem C05_cli_fixed_point_partial_off (cfg : Cfg) (fs : FS) (ord : List (List Lcov.Bytes))
+    (sn : List Lcov.Bytes) (inputs : List Lcov.Bytes) (rep : List Rewrite.Rec)
+    (hS : cfg.sourceDir = some (render ⟨true, sn⟩)) (hM : cfg.mapping = none)
+    (hP : cfg.prefixDir = none ∨ cfg.prefixDir = some (render ⟨true, sn⟩))
+    (hsn : ∀ n ∈ sn, RealName n ∧ 92 ∉ n)
+    (h : reportJ cfg false fs ord inputs = .ok rep) (hw : ReportOK (printable rep))
+    (hnd : (rep.map (·.abs)).Nodup)
+    (hfiles : ∀ r ∈ rep, ∃ names, names ≠ [] ∧ (∀ n ∈ names, RealName n ∧ 92 ∉ n) ∧
+      r.abs = render ⟨true, sn ++ names⟩ ∧ r.rel = join names ∧
+      fs.resolve (render ⟨true, sn ++ names⟩) = some (sn ++ names, .file)) :
+    runJ cfg false fs ord inputs = .ok (printReport rep)
+    ∧ runJ cfg false fs ord [printReport rep] = .ok (printReport rep)
+    ∧ ∀ k, rerunJ cfg false fs ord k (printReport rep) = .ok (printReport rep) :=
+  CliAux.fixed_point_source cfg false fs ord sn inputs rep hS hM hP hsn h hw
+    (fun _ => CliAux.reportJ_off_no_branches h) hnd hfiles
 
 /-- **CLI fixed point without path options.** No source dir, no prefix dir, no mapping,
 `--ignore-not-existing` off (clean current directory); any `--ignore`, `--keep-only`, `--filter`;
 `--branch` on. If the report of the run is writable and no path is reported twice, then a run on
 the report reproduces it byte for byte, and so does every further run. -/
-theorem C05_cli_fixed_point_plain_partial (cfg : Cfg) (fs : FS) (inputs : List Lcov.Bytes)
+theorem C05_cli_fixed_point_plain_partial (cfg : Cfg) (fs : FS) (ord : List (List Lcov.Bytes))
+    (inputs : List Lcov.Bytes)
     (rep : List Rewrite.Rec) (hS : cfg.sourceDir = none) (hP : cfg.prefixDir = none)
     (hM : cfg.mapping = none) (hE : cfg.ignoreNotExisting = false) (hcwd : ∀ n ∈ fs.cwd, RealName n)
-    (h : report cfg true fs inputs = .ok rep) (hw : ReportOK (printable rep))
+    (h : reportJ cfg true fs ord inputs = .ok rep) (hw : ReportOK (printable rep))
     (hnd : (rep.map (·.rel)).Nodup) :
-    run cfg true fs inputs = .ok (printReport rep)
-    ∧ run cfg true fs [printReport rep] = .ok (printReport rep)
-    ∧ ∀ k, rerun cfg true fs k (printReport rep) = .ok (printReport rep) := by
-  have hcanon : ∀ k, addCanon fs cfg.sourceDir k = k := by intro k; rw [hS]; rfl
-  have h2 : run cfg true fs [printReport rep] = .ok (printReport rep) := by
-    apply CliAux.second_run cfg fs inputs rep h hw
-    · have : (rep.map (·.rel)).map (addCanon fs cfg.sourceDir) = rep.map (·.rel) := by
-        rw [List.map_congr_left (g := id) fun k _ => hcanon k]; simp
-      rw [this]; exact hnd
-    · intro r hr
-      obtain ⟨kc, _, hk⟩ := (mem_rewritePaths h r).1 hr
-      obtain ⟨a, rl, hres, hsel⟩ := (rewriteKey_some_iff _ _ _ _).1 hk
-      obtain ⟨h1, h2, _, h4, e⟩ := (selectRec_some_iff _ _ _ _ _ _).1 hsel
-      obtain ⟨r0, _, hf⟩ := resolveKey_some hres
-      obtain ⟨⟨np, enp, hreal⟩, hnb⟩ := finalRel_shape hf
-      have erel : r.rel = render np := by rw [e]; exact enp
-      obtain ⟨a', ha'⟩ := resolveKey_plain_normal (fs := fs) hS hP hM hcwd hreal (enp ▸ hnb)
-      refine ⟨a', ?_⟩
-      rw [hcanon, rewriteKey_some_iff]
-      refine ⟨a', r.rel, by rw [erel]; exact ha', ?_⟩
-      rw [selectRec_some_iff]
-      subst e
-      exact ⟨h1, h2, by simp [hE], by rw [filterOk_norm]; exact h4, rfl⟩
-  refine ⟨by simp only [Cli.run, h], h2, CliAux.rerun_fixed cfg true fs _ h2⟩
+    runJ cfg true fs ord inputs = .ok (printReport rep)
+    ∧ runJ cfg true fs ord [printReport rep] = .ok (printReport rep)
+    ∧ ∀ k, rerunJ cfg true fs ord k (printReport rep) = .ok (printReport rep) :=
+  CliAux.fixed_point_plain cfg true fs ord inputs rep hS hP hM hE hcwd h hw (by simp) hnd
+
+/-- … with `--branch` off -/
+theorem C05_cli_fixed_point_plain_partial_off (cfg : Cfg) (fs : FS) (ord : List (List Lcov.Bytes))
+    (inputs : List Lcov.Bytes)
+    (rep : List Rewrite.Rec) (hS : cfg.sourceDir = none) (hP : cfg.prefixDir = none)
+    (hM : cfg.mapping = none) (hE : cfg.ignoreNotExisting = false) (hcwd : ∀ n ∈ fs.cwd, RealName n)
+    (h : reportJ cfg false fs ord inputs = .ok rep) (hw : ReportOK (printable rep))
+    (hnd : (rep.map (·.rel)).Nodup) :
+    runJ cfg false fs ord inputs = .ok (printReport rep)
+    ∧ runJ cfg false fs ord [printReport rep] = .ok (printReport rep)
+    ∧ ∀ k, rerunJ cfg false fs ord k (printReport rep) = .ok (printReport rep) :=
+  CliAux.fixed_point_plain cfg false fs ord inputs rep hS hP hM hE hcwd h hw
+    (fun _ => CliAux.reportJ_off_no_branches h) hnd
 
 /-! ### the full statement is false: closed byte-level witnesses -/
 
@@ -171,6 +319,19 @@ def w3B2 : Lcov.Bytes := [84, 78, 58, 10, 83, 70, 58, 97, 46, 99, 10, 66, 82, 70
 def w4In : Lcov.Bytes := [84, 78, 58, 10, 83, 70, 58, 120, 47, 46, 46, 47, 97, 46, 99, 10, 68, 65, 58, 49, 44, 49, 10, 101, 110, 100, 95, 111, 102, 95, 114, 101, 99, 111, 114, 100, 10, 83, 70, 58, 97, 46, 99, 10, 68, 65, 58, 50, 44, 49, 10, 101, 110, 100, 95, 111, 102, 95, 114, 101, 99, 111, 114, 100, 10]
 def w4B1 : Lcov.Bytes := [84, 78, 58, 10, 83, 70, 58, 97, 46, 99, 10, 66, 82, 70, 58, 48, 10, 66, 82, 72, 58, 48, 10, 68, 65, 58, 49, 44, 49, 10, 76, 70, 58, 49, 10, 76, 72, 58, 49, 10, 101, 110, 100, 95, 111, 102, 95, 114, 101, 99, 111, 114, 100, 10, 83, 70, 58, 97, 46, 99, 10, 66, 82, 70, 58, 48, 10, 66, 82, 72, 58, 48, 10, 68, 65, 58, 50, 44, 49, 10, 76, 70, 58, 49, 10, 76, 72, 58, 49, 10, 101, 110, 100, 95, 111, 102, 95, 114, 101, 99, 111, 114, 100, 10]
 def w4B2 : Lcov.Bytes := [84, 78, 58, 10, 83, 70, 58, 97, 46, 99, 10, 66, 82, 70, 58, 48, 10, 66, 82, 72, 58, 48, 10, 68, 65, 58, 49, 44, 49, 10, 68, 65, 58, 50, 44, 49, 10, 76, 70, 58, 50, 10, 76, 72, 58, 50, 10, 101, 110, 100, 95, 111, 102, 95, 114, 101, 99, 111, 114, 100, 10]
+def w5In : Lcov.Bytes := [84, 78, 58, 10, 83, 70, 58, 115, 114, 99, 92, 97, 46, 99, 10, 68, 65, 58, 49, 44, 49, 10, 101, 110, 100, 95, 111, 102, 95, 114, 101, 99, 111, 114, 100, 10]
+def w5B1 : Lcov.Bytes := [84, 78, 58, 10, 83, 70, 58, 115, 114, 99, 47, 97, 46, 99, 10, 66, 82, 70, 58, 48, 10, 66, 82, 72, 58, 48, 10, 68, 65, 58, 49, 44, 49, 10, 76, 70, 58, 49, 10, 76, 72, 58, 49, 10, 101, 110, 100, 95, 111, 102, 95, 114, 101, 99, 111, 114, 100, 10]
+def w5B2 : Lcov.Bytes := [84, 78, 58, 10, 83, 70, 58, 97, 46, 99, 10, 66, 82, 70, 58, 48, 10, 66, 82, 72, 58, 48, 10, 68, 65, 58, 49, 44, 49, 10, 76, 70, 58, 49, 10, 76, 72, 58, 49, 10, 101, 110, 100, 95, 111, 102, 95, 114, 101, 99, 111, 114, 100, 10]
+def w5Fs : FS := { files := [[[115], [115, 114, 99], [97, 46, 99]]], dirs := [[[115]], [[115], [115, 114, 99]]], cwd := [[115]] }
+def w5Cfg : Cfg := { sourceDir := some [47, 115], prefixDir := some [47, 115, 47, 115, 114, 99] }
+def jIn : Lcov.Bytes := [84, 78, 58, 10, 83, 70, 58, 112, 107, 103, 47, 65, 46, 106, 97, 118, 97, 10, 68, 65, 58, 49, 44, 49, 10, 101, 110, 100, 95, 111, 102, 95, 114, 101, 99, 111, 114, 100, 10]
+def jB1 : Lcov.Bytes := [84, 78, 58, 10, 83, 70, 58, 109, 97, 105, 110, 47, 106, 97, 118, 97, 47, 112, 107, 103, 47, 65, 46, 106, 97, 118, 97, 10, 66, 82, 70, 58, 48, 10, 66, 82, 72, 58, 48, 10, 68, 65, 58, 49, 44, 49, 10, 76, 70, 58, 49, 10, 76, 72, 58, 49, 10, 101, 110, 100, 95, 111, 102, 95, 114, 101, 99, 111, 114, 100, 10]
+def jFs : FS := { files := [[[115], [109, 97, 105, 110], [106, 97, 118, 97], [112, 107, 103], [65, 46, 106, 97, 118, 97]]],
+                  dirs := [[[115]], [[115], [109, 97, 105, 110]], [[115], [109, 97, 105, 110], [106, 97, 118, 97]],
+                           [[115], [109, 97, 105, 110], [106, 97, 118, 97], [112, 107, 103]]], cwd := [[115]] }
+def jOrd : List (List Lcov.Bytes) := [[[115]], [[115], [109, 97, 105, 110]], [[115], [109, 97, 105, 110], [106, 97, 118, 97]],
+  [[115], [109, 97, 105, 110], [106, 97, 118, 97], [112, 107, 103]],
+  [[115], [109, 97, 105, 110], [106, 97, 118, 97], [112, 107, 103], [65, 46, 106, 97, 118, 97]]]
 def goodIn : Lcov.Bytes := [84, 78, 58, 10, 83, 70, 58, 102, 111, 111, 47, 47, 46, 47, 98, 97, 114, 46, 99, 10, 68, 65, 58, 55, 44, 49, 10, 68, 65, 58, 51, 44, 50, 10, 70, 78, 58, 51, 44, 102, 10, 70, 78, 68, 65, 58, 49, 44, 102, 10, 66, 82, 68, 65, 58, 51, 44, 48, 44, 49, 44, 49, 10, 101, 110, 100, 95, 111, 102, 95, 114, 101, 99, 111, 114, 100, 10]
 def goodFs : FS := { files := [[[115], [102, 111, 111], [98, 97, 114, 46, 99]]],
                      dirs := [[[115]], [[115], [102, 111, 111]]], cwd := [[115]] }
@@ -181,37 +342,56 @@ open CliWit
 /-- Witness 1 (C05-relative-prefix-restripped at CLI level): `grcov in.info -t lcov --branch -p a`
 on `SF:a/a/x.c` writes a report with `SF:a/x.c`; the same command on that report writes `SF:x.c`. -/
 theorem C05_cli_relative_prefix_witness :
-    Cli.run { prefixDir := some [97] } true { files := [], dirs := [], cwd := [] } [w1In] = Res.ok w1B1
-    ∧ Cli.run { prefixDir := some [97] } true { files := [], dirs := [], cwd := [] } [w1B1] = Res.ok w1B2 ∧ w1B1 ≠ w1B2 := by
+    Cli.runJ { prefixDir := some [97] } true { files := [], dirs := [], cwd := [] } [] [w1In] = Res.ok w1B1
+    ∧ Cli.runJ { prefixDir := some [97] } true { files := [], dirs := [], cwd := [] } [] [w1B1] = Res.ok w1B2 ∧ w1B1 ≠ w1B2 := by
   decide +kernel
 
 /-- Witness 2 (C05-source-dir-name-restripped): `-s /x/foo` (an existing directory), input
 `SF:foo/foo/bar.c` (no such file): the report says `SF:foo/bar.c`, the re-import `SF:bar.c`. -/
 theorem C05_cli_source_name_witness :
-    Cli.run { sourceDir := some [47, 120, 47, 102, 111, 111] } true
-        { files := [], dirs := [[[120]], [[120], [102, 111, 111]]], cwd := [[120]] } [w2In] = Res.ok w2B1
-    ∧ Cli.run { sourceDir := some [47, 120, 47, 102, 111, 111] } true
-        { files := [], dirs := [[[120]], [[120], [102, 111, 111]]], cwd := [[120]] } [w2B1] = Res.ok w2B2 ∧ w2B1 ≠ w2B2 := by
+    Cli.runJ { sourceDir := some [47, 120, 47, 102, 111, 111] } true
+        { files := [], dirs := [[[120]], [[120], [102, 111, 111]]], cwd := [[120]] } [] [w2In] = Res.ok w2B1
+    ∧ Cli.runJ { sourceDir := some [47, 120, 47, 102, 111, 111] } true
+        { files := [], dirs := [[[120]], [[120], [102, 111, 111]]], cwd := [[120]] } [] [w2B1] = Res.ok w2B2 ∧ w2B1 ≠ w2B2 := by
   decide +kernel
 
 /-- Witness 3 (C05-prefix-behind-dotdot-restripped): `-p /p`, input `SF:/x/../p/a.c`: the report
 says `SF:/p/a.c`, the re-import `SF:a.c`. -/
 theorem C05_cli_prefix_dotdot_witness :
-    Cli.run { prefixDir := some [47, 112] } true { files := [], dirs := [], cwd := [] } [w3In] = Res.ok w3B1
-    ∧ Cli.run { prefixDir := some [47, 112] } true { files := [], dirs := [], cwd := [] } [w3B1] = Res.ok w3B2 ∧ w3B1 ≠ w3B2 := by
+    Cli.runJ { prefixDir := some [47, 112] } true { files := [], dirs := [], cwd := [] } [] [w3In] = Res.ok w3B1
+    ∧ Cli.runJ { prefixDir := some [47, 112] } true { files := [], dirs := [], cwd := [] } [] [w3B1] = Res.ok w3B2 ∧ w3B1 ≠ w3B2 := by
   decide +kernel
 
 /-- Witness 4 (the duplicates guard, known finding C12-respelled-duplicates): no option at all, one
 input naming the same file twice as `x/../a.c` and `a.c`: the report lists `SF:a.c` twice (two
 sections), the re-import merges them into one. -/
 theorem C05_cli_duplicates_witness :
-    Cli.run {} true { files := [], dirs := [], cwd := [] } [w4In] = Res.ok w4B1
-    ∧ Cli.run {} true { files := [], dirs := [], cwd := [] } [w4B1] = Res.ok w4B2 ∧ w4B1 ≠ w4B2 := by
+    Cli.runJ {} true { files := [], dirs := [], cwd := [] } [] [w4In] = Res.ok w4B1
+    ∧ Cli.runJ {} true { files := [], dirs := [], cwd := [] } [] [w4B1] = Res.ok w4B2 ∧ w4B1 ≠ w4B2 := by
   decide +kernel
+
+/-- Witness 5 (finding C05-abs-prefix-below-source-restripped; second review, item 25): `-s /s
+-p /s/src`, the file `/s/src/a.c` ON DISK, input `SF:src\a.c` (also `srcroot/src/a.c`,
+`src\sub\..\a.c`: any spelling `add_results` cannot canonicalise). The first run reports
+`SF:src/a.c`. The second run's `add_results` canonicalises that path to `/s/src/a.c`, which lies
+below the prefix dir, so `rewrite_paths` strips `/s/src` and reports `SF:a.c` – violating none of
+the three rewrite findings (the prefix is absolute, the file exists below the source dir). The
+guard it violates is `hP` of `C05_cli_fixed_point_partial`: prefix dir absent or EQUAL to the
+source dir. -/
+theorem C05_cli_abs_prefix_below_source_witness :
+    Cli.runJ w5Cfg true w5Fs [] [w5In] = Res.ok w5B1
+    ∧ Cli.runJ w5Cfg true w5Fs [] [w5B1] = Res.ok w5B2 ∧ w5B1 ≠ w5B2 := by
+  decide +kernel
+
+/-- … while the rewrite alone IS idempotent there (`reKeys` feeds the reported path back as it is;
+only `add_results` canonicalises it first): the fourth non-idempotence exists at CLI level only -/
+theorem C05_cli_abs_prefix_rewrite_alone_idempotent :
+    rewriteTwice w5Cfg w5Fs [([115, 114, 99, 92, 97, 46, 99], {})]
+      = rewritePaths w5Cfg w5Fs [([115, 114, 99, 92, 97, 46, 99], {})] := by decide
 
 theorem C05_cli_fixed_point_false : ¬ C05_cli_fixed_point_stmt := by
   intro h
-  have h2 := h _ _ _ _ rfl C05_cli_relative_prefix_witness.1
+  have h2 := h _ _ _ _ _ rfl C05_cli_relative_prefix_witness.1
   rw [C05_cli_relative_prefix_witness.2.1] at h2
   exact C05_cli_relative_prefix_witness.2.2 (by cases h2)
 
@@ -220,9 +400,20 @@ theorem C05_cli_fixed_point_false : ¬ C05_cli_fixed_point_stmt := by
 branch; the run reports `foo/bar.c`, and a run on that report – which `add_results` files under
 the canonical key `/s/foo/bar.c` – writes the same bytes, as do two more -/
 example :
-    ∃ B, Cli.run goodCfg true goodFs [goodIn] = Res.ok B ∧ Cli.run goodCfg true goodFs [B] = Res.ok B
-      ∧ rerun goodCfg true goodFs 2 B = Res.ok B ∧ B ≠ goodIn := by
-  refine ⟨(match Cli.run goodCfg true goodFs [goodIn] with | .ok b => b | _ => []), ?_⟩
+    ∃ B, Cli.runJ goodCfg true goodFs [] [goodIn] = Res.ok B ∧ Cli.runJ goodCfg true goodFs [] [B] = Res.ok B
+      ∧ rerunJ goodCfg true goodFs [] 2 B = Res.ok B ∧ B ≠ goodIn
+      ∧ Cli.runJ goodCfg false goodFs [] [goodIn] ≠ Res.ok B := by
+  refine ⟨(match Cli.runJ goodCfg true goodFs [] [goodIn] with | .ok b => b | _ => []), ?_⟩
+  decide +kernel
+
+/-- non-vacuity with a Java file (second review, item 26): `-s /s`, `/s/main/java/pkg/A.java` on
+disk, input `SF:pkg/A.java` – the run with the lookup reports `SF:main/java/pkg/A.java` (as the
+real binary does), the run without it `SF:pkg/A.java`; the report of the former is reproduced by a
+run on it -/
+example :
+    Cli.runJ { sourceDir := some [47, 115], prefixDir := some [47, 115] } true jFs jOrd [jIn] = Res.ok jB1
+    ∧ Cli.runJ { sourceDir := some [47, 115], prefixDir := some [47, 115] } true jFs jOrd [jB1] = Res.ok jB1
+    ∧ Cli.run { sourceDir := some [47, 115], prefixDir := some [47, 115] } true jFs [jIn] ≠ Res.ok jB1 := by
   decide +kernel
 
 end Grcov.Props.C05
